@@ -30,20 +30,36 @@ pub mod vpath {
         #[verifier::external_body]
         pub fn join(&self, e: &str) -> (r: PathBuf) ensures r@ == path_join(self@, e@) { unimplemented!() }
         #[verifier::external_body]
-        pub fn exists(&self, Tracked(w): Tracked<&mut World>) -> (r: bool)
-            ensures *final(w) == *old(w), old(w).fs.files.contains_key(self@) ==> r { unimplemented!() }
-        #[verifier::external_body]
         pub fn push(&mut self, p: &String) ensures final(self)@ == path_join(old(self)@, p@) { unimplemented!() }
         #[verifier::external_body]
         pub fn display(&self) -> Display { unimplemented!() }
         #[verifier::external_body]
         pub fn to_str(&self) -> Option<&str> { unimplemented!() }
+        // Path::symlink_metadata (lstat): about the directory entry itself - a symbolic link to a regular file is not a regular file
+        #[verifier::external_body]
+        pub fn symlink_metadata(&self, Tracked(w): Tracked<&mut World>) -> (r: Result<crate::vfs::Metadata, crate::acme_common::error::IoError>)
+            ensures *final(w) == *old(w),
+                r matches Ok(m) ==> (m.file <==> (old(w).fs.files.contains_key(self@) && !is_symlink(self@))),
+                r is Err ==> !old(w).fs.files.contains_key(self@) || is_symlink(self@)
+        { unimplemented!() }
+        // Path::metadata (stat): follows symbolic links
+        #[verifier::external_body]
+        pub fn metadata(&self, Tracked(w): Tracked<&mut World>) -> (r: Result<crate::vfs::Metadata, crate::acme_common::error::IoError>)
+            ensures *final(w) == *old(w),
+                r matches Ok(m) ==> (m.file <==> old(w).fs.files.contains_key(self@)) && (m.file ==> m.size as nat == old(w).fs.files[self@].len())
+        { unimplemented!() }
+        #[verifier::external_body]
+        pub fn exists(&self, Tracked(w): Tracked<&mut World>) -> (r: bool)
+            ensures *final(w) == *old(w), old(w).fs.files.contains_key(self@) ==> r
+        { unimplemented!() }
         // Path::is_file : reads the file system, changes nothing
         #[verifier::external_body]
         pub fn is_file(&self, Tracked(w): Tracked<&mut World>) -> (r: bool)
             ensures *final(w) == *old(w), r == old(w).fs.files.contains_key(self@)
         { unimplemented!() }
     }
+    // the directory entry at this path is a symbolic link (files.contains_key says whether a regular file is reached through it)
+    pub uninterp spec fn is_symlink(p: Seq<char>) -> bool;
     pub uninterp spec fn path_join(a: Seq<char>, b: Seq<char>) -> Seq<char>;
     pub uninterp spec fn with_extension_spec(a: Seq<char>, e: Seq<char>) -> Seq<char>;
     pub uninterp spec fn with_file_name_spec(a: Seq<char>, e: Seq<char>) -> Seq<char>;
@@ -181,7 +197,9 @@ pub mod vfs {
     pub struct Metadata { pub size: u64, pub file: bool }
     impl Metadata {
         pub fn len(&self) -> (r: u64) ensures r == self.size { self.size }
-        pub fn is_file(&self) -> (r: bool) ensures r == self.file { self.file }
+        // (a unit that gives `path.is_file()` its ghost argument gives it to `metadata.is_file()` as well: accepted and left alone)
+        #[verifier::external_body]
+        pub fn is_file(&self, Tracked(w): Tracked<&mut World>) -> (r: bool) ensures r == self.file, *final(w) == *old(w) { self.file }
         pub fn is_dir(&self) -> (r: bool) ensures r == !self.file { !self.file }
     }
     #[verifier::external_body]
